@@ -1459,7 +1459,15 @@ class Resolver:
         i = 0
         for a in call.args:
             if isinstance(a, ast.Starred):
-                return
+                # *t with t a tuple of known arity: element-wise
+                elems = self._tuple_elems(a.value)
+                if elems is None:
+                    break
+                for et in elems:
+                    if i < len(params):
+                        self._add(pin, params[i], et)
+                    i += 1
+                continue
             if i < len(params):
                 self._add(pin, params[i], self.types(a))
             i += 1
